@@ -12,7 +12,7 @@
     replace_range <sb> <eb> <hex> | extend_from_within <sb> <eb> | split_off <sb> <eb> | into_cstr |
     reserve <n> | reserve_exact <n> | extend_zeroed <n> | write_str <hex> | write_char <cp> |
     extend_chars <by_ref> <cps> | extend_strs <add_assign> <hex>… | shrink_to <n> g<cap> | shrink_to_fit g<cap> |
-    into_str | into_boxed_str | into_fixed_string | into_bytes | into_string |   (a leading `try_` is ignored) from_utf8 <hex> | from_utf16 <hex of u16 units, big endian> | from_utf16_lossy <hex> |
+    clone <swap> | swap <i> | drop_parked <i> | into_str | into_boxed_str | into_fixed_string | into_bytes | into_string |   (a leading `try_` is ignored) from_utf8 <hex> | from_utf16 <hex of u16 units, big endian> | from_utf16_lossy <hex> |
     cstr <hex-with-nul> | cstr_from_str <hex> | cstr_fmt lit <hex> | cstr_fmt pieces <hex>… |
     boundary <idx> | valid <hex> | chars
 
@@ -32,6 +32,7 @@ inductive Kind where
 structure DState where
   kind : Kind := .bump
   s : State := { buf := [], len := 0 }
+  parked : List State := []     -- the other live strings of the trace (clones / cloned originals)
   dead : Bool := false
   deriving Inhabited
 
@@ -147,6 +148,20 @@ def handleOp (d : DState) (toks0 : List String) : Option (DState × String) :=
     let v := intoBytes s true
     some (d, "ok:" ++ toHex v ++ " | " ++ toHex v ++ " | " ++ toString v.length ++ " | -")
   match toks with
+  | ["clone", sw] => do
+    let sw ← sw.toNat?
+    let c := cloneStr s
+    let v := toHex c.bytes ++ ":" ++ toString c.cap
+    let d' : DState := if sw != 0 then { d with s := c, parked := d.parked ++ [s] } else { d with parked := d.parked ++ [c] }
+    pure (d', "ok:" ++ v ++ " | " ++ showState d.kind d'.s)
+  | ["swap", i] => do
+    let i ← i.toNat?
+    let o ← d.parked[i]?
+    let d' : DState := { d with s := o, parked := d.parked.set i s }
+    pure (d', "ok | " ++ showState d.kind o)
+  | ["drop_parked", i] => do
+    let i ← i.toNat?
+    pure ({ d with parked := d.parked.eraseIdx i }, "ok | " ++ showState d.kind s)
   | ["into_str"] => conv
   | ["into_boxed_str"] => conv
   | ["into_fixed_string"] => conv
@@ -259,8 +274,8 @@ def handle (d : DState) (toks0 : List String) : DState × String :=
       match parseKind k, parseHex h with
       | some k, some b =>
         match construct k ctor b grant with
-        | some (.ok () s) => ({ kind := k, s := s, dead := false }, "ok | " ++ showState k s)
-        | some (.err s) => ({ kind := k, s := s, dead := false }, "err | " ++ showState k s)
+        | some (.ok () s) => ({ kind := k, s := s, parked := [], dead := false }, "ok | " ++ showState k s)
+        | some (.err s) => ({ kind := k, s := s, parked := [], dead := false }, "err | " ++ showState k s)
         | _ => (d, "bad-line")
       | _, _ => (d, "bad-line")
     | _ => (d, "bad-line")
